@@ -15,4 +15,4 @@ Separate Extraction
   Sched.Pct.pct_new_from_seed Sched.Pct.pct_new_execution Sched.Pct.pct_next_task Sched.Pct.pct_next_u64
   Sched.Random.fd_initialize Sched.Random.fd_reinitialize Sched.Random.fd_next_u64 Sched.Random.pcg_from_seed_u64 Sched.Random.pcg_next_u64 Sched.Replay.replay Sched.Urw.urw_new_from_seed Sched.Urw.urw_new_execution Sched.Urw.urw_next_task Sched.Urw.urw_next_u64 Sched.ReplayTarget.rt_next_task Sched.ReplayTarget.rt_next_u64 Sched.Random.ds_initialize Sched.Random.ds_reinitialize Sched.Random.ds_next_u64 Engine.Failure.do_history Engine.Failure.init_pstate Engine.Failure.portfolio_run Engine.Failure.ug_run Engine.Failure.ug_history Engine.Failure.panic_result
   Lang.PlOps.run_pl Lang.PlMap.hist_results
-  Lang.Tok.run_tok Lang.TokOps.mpsc_new Lang.TokOps.tok_sem_new Lang.TokNotify.notify_new Lang.TokNotify.oneshot_new Lang.TokWatch.watch_new.
+  Lang.Tok.run_tok Lang.TokOps.mpsc_new Lang.TokOps.tok_sem_new Lang.TokNotify.notify_new Lang.TokNotify.oneshot_new Lang.TokWatch.watch_new Lang.Tok.oc_new.
